@@ -94,8 +94,9 @@ def body_chain(ctx, case):
             break
         # the statement is about *lossless* intermediate formats: an error value prints as the bare token (error), which is not JSON, and a
         # record without fields has no CSV/TSV representation (it is written as an empty header line and read back as one empty field)
-        if k < len(chain) - 1 and ((fmt == "json" and b"(error)" in data) or (fmt in ("csv", "tsv", "csvlite") and (data.startswith(b"\n") or b"\n\n\n" in data))):
-            ctx.excluded["intermediate document is not lossless (error value in JSON / empty record in CSV)"] += 1
+        if k < len(chain) - 1 and ((fmt == "json" and b"(error)" in data) or (fmt in ("csv", "tsv", "csvlite", "xtab") and (data.startswith(b"\n") or b"\n\n\n" in data)) or
+                                   (fmt in ("dkvp", "nidx") and (data.startswith(b"\n") or b"\n\n" in data))):
+            ctx.excluded["intermediate document is not lossless (error value in JSON / record without fields in a line format)"] += 1
             return
     changing = sum(1 for v in chain if v != ["cat"])
     ctx.case(case, changing >= 2 and len(recs) >= 2, labels=("pipe-" + fmt, "wide" if any(len(r) >= 12 for r in recs) else "narrow"),
